@@ -96,7 +96,12 @@ def check_scenario(scn, seed, family="replay", rng=None):
                     d2 = E.compare_outcome(mo, term2)
                     probes["rerun:" + pol] = 1
                     if d2:
-                        findings.append(E.finding(PROP, "schedule-dependent-outcome", "%s: %s" % (pol, d2), None, scn2,
+                        # a sibling's event in flight at the instant a fan-out failure is handled by the fan-out's own
+                        # Catch, under a schedule that handles the failure first: the recorded C06 finding (the pending
+                        # work of the states that follow is cancelled with the failed fan-out's) - reported under its witness
+                        wit = "sibling-event-in-flight-at-handled-failure" if (mo.flags.cancel_tie and
+                                                                                mo.flags.fanout_handled) else None
+                        findings.append(E.finding(PROP, "schedule-dependent-outcome", "%s: %s" % (pol, d2), wit, scn2,
                                                   seed + 1))
                         break
         sample = {"family": family, "definition_states": len(json.dumps(scn["machines"]["m"]["definition"])),
@@ -157,7 +162,10 @@ def replay(path):
     with open(path) as f:
         rec = json.load(f)
     r = check_scenario(rec["scenario"], rec["seed"])
-    same = [f for f in r["findings"] if f["rule"] == rec["rule"]]
+    # (a schedule-dependent outcome was found in a re-run under another policy: the replay file holds that policy's
+    # scenario and seed, and replaying it as a run of its own reports the same mismatch as an outcome mismatch)
+    same = [f for f in r["findings"] if f["rule"] == rec["rule"] or
+            (rec["rule"] == "schedule-dependent-outcome" and f["rule"] == "outcome-mismatch")]
     print("replay %s: %s" % (path, "REPRODUCED rule=%s%s" % (rec["rule"], common.digest_note(rec, same)) if same else "not reproduced"))
     for f in same:
         print("  ", f["detail"][:500])
